@@ -260,7 +260,16 @@ func (m *Muxer) validate() error {
 	}
 	// Check that frame dimensions fit within the canvas.
 	canvasW, canvasH := m.canvasSize()
+	if canvasW > container.MaxCanvasSize || canvasH > container.MaxCanvasSize {
+		return fmt.Errorf("%w: canvas %dx%d exceeds the 24-bit limit", ErrMuxValidation, canvasW, canvasH)
+	}
 	for i, f := range m.frames {
+		// Offsets are stored halved in 24 bits; anything else would be
+		// written truncated.
+		if f.opts.OffsetX < 0 || f.opts.OffsetY < 0 ||
+			f.opts.OffsetX/2 >= container.MaxPositionOff || f.opts.OffsetY/2 >= container.MaxPositionOff {
+			return fmt.Errorf("%w: frame %d offset (%d,%d) out of range", ErrMuxValidation, i, f.opts.OffsetX, f.opts.OffsetY)
+		}
 		fw, fh := frameDimensions(f.data)
 		if fw == 0 || fh == 0 {
 			continue // could not parse dimensions, skip check
